@@ -357,6 +357,9 @@ func c13FileFaults(run *rt.Run, r *rt.Rand) {
 	for i := 0; i < n && !run.Stop(); i++ {
 		cr := r.Fork()
 		w := crashWorkload{Writers: 1, Records: 10, MaxBytes: rt.Pick(cr, []int{0, 150}), TSOnly: cr.Bool()}
+		if cr.Intn(3) == 0 {
+			w.ReopenEvery = cr.Range(2, 4) // the sink's byte counter restarts at every (re)open, the file does not
+		}
 		k := cr.Range(1, 12)
 		errno := rt.Pick(cr, []string{"EIO", "ENOSPC", "EINTR"})
 		base, _ := os.MkdirTemp("", "fs13fault")
@@ -368,12 +371,15 @@ func c13FileFaults(run *rt.Run, r *rt.Rand) {
 		when := fmt.Sprint(k)
 		if cr.Intn(3) == 0 {
 			when += "+"
+			if errno == "EINTR" {
+				errno = "EIO" // the Go runtime repeats a write that was interrupted for as long as it is interrupted
+			}
 		}
 		run.Progress("C13 write fault %d inject=write:error=%s:when=%s %+v", i, errno, when, w)
 		c := exec.Command("strace", append([]string{"-f", "-o", filepath.Join(base, "tr"), "-e", "trace=write",
 			"-e", fmt.Sprintf("inject=write:error=%s:when=%s", errno, when), child}, w.args(dir, ackp)...)...)
 		c.Env = append(os.Environ(), "GOMAXPROCS=1")
-		c.Run()
+		runChild(c, 90*time.Second)
 		a := readAck(ackp)
 		if !a.done {
 			run.Inconclusive("child did not finish under write-error injection")
@@ -426,6 +432,9 @@ func c13PartialWrites(run *rt.Run, r *rt.Rand) {
 		limit := cr.Range(120, 700)
 		// rotation is "enabled" (file names carry a timestamp, so a reopen yields a new file) but never due
 		w := crashWorkload{Writers: 1, Records: cr.Range(6, 30), TSOnly: cr.Intn(4) == 0, MaxBytes: 1 << 20}
+		if cr.Intn(3) == 0 {
+			w.ReopenEvery = cr.Range(2, 5)
+		}
 		base, _ := os.MkdirTemp("", "fs13partial")
 		dir := filepath.Join(base, "d")
 		os.Mkdir(dir, 0o755)
